@@ -122,6 +122,7 @@ def run(ctx):
     cases_file, cases = p3.generate(ctx, "GraphSerde", consts)
     ctx.log(f"{len(cases)} cases")
     cases, results = p3.execute(ctx, cases, cases_file, lambda c: result_of(c, ctx.scratch))
+    ctx.log("real code done")
     rf = ctx.scratch / "c12_results.json"
     rf.write_text(json.dumps(results))
     bad = p3.judge(ctx, "GraphSerde", consts, cases_file, rf, env=judge_env(cases_file))
@@ -135,7 +136,7 @@ def run(ctx):
         "round_trips_per_case": 3,
         "rule": f"spec/GraphSerde.tla!Plain: every DAG with <= {consts['MaxN']} uniquely named nodes (named n1..n3, and again with names "
                 f"that coincide with output names 'a'/'b'/'0' rotated, and with input names / serialisation keys), per node one of 5 output "
-                f"lists ([], ['0'], ['a'], ['a','b'], ['0','a']; only [], ['0'], ['a','b'] beyond {consts['MaxRichN']} nodes), (graphs up to that size also a list of twelve numbered outputs), every graph with a multi-output node also with its "
+                f"lists ([], ['0'], ['a'], ['a','b'], ['0','a']; only [], ['0'], ['a','b'] beyond {consts['MaxRichN']} nodes), (graphs of up to 2 nodes also a list of twelve numbered outputs), every graph with a multi-output node also with its "
                 f"output lists reversed, inputs x/y each absent or bound to any output of an earlier node, "
                 f"payloads rotated through 14 literals (all rotations up to {consts['MaxPayN']} nodes, 1-2 beyond); "
                 f"each graph with an edge also with a sink list that names every node (consumed ones included); !Fluent: from_source over 1..3 sources (single/two-output) followed by <= {consts['MaxOps']} of map/reduce/add/"
